@@ -1,13 +1,14 @@
 #!/bin/bash
 # like eval_all_mutants.sh, but against a private copy of the library source (so that it can run beside other work, e.g. in a
 # `vp run` snapshot): every seeded change is applied to a scratch copy of /repo/src and the checks run with VERIF_PROV_SRC.
-# usage: tools/eval_all_private.sh [scratch-dir]        one line per change; the scratch copy is removed at the end
+# usage: [ONLY="id id"] tools/eval_all_private.sh [scratch-dir]        one line per change; the scratch copy is removed at the end
 cd "$(dirname "$0")/.."
 S=${1:-/tmp/evalrepo.$$}
 rm -rf "$S"; mkdir -p "$S"
 for d in seeded/*/; do
   id=$(basename $d)
   case "$id" in *r) continue;; esac
+  if [ -n "$ONLY" ]; then case " $ONLY " in *" $id "*) ;; *) continue;; esac; fi
   props=$(python3 -c "
 import json
 m=json.load(open('$d/meta.json')); d=m.get('detected_by',[])
